@@ -306,6 +306,12 @@ theorem result_owns_validity (env : Nat → Mask) (addr : Nat → Nat) (p : Prog
   obtain ⟨h1, h2, _⟩ := evalS_store env addr p st a st' h
   exact ⟨(h2 hp).1, (h2 hp).2, h1⟩
 
+/-- the buffer the result owns holds exactly the mask the evaluator computes (C order) -/
+theorem result_buffer_holds_mask (env : Nat → Mask) (addr : Nat → Nat) (p : Prog) (st st' : Store) (a : Nat)
+    (h : evalS env addr p st = .ok (a, st')) (hp : aliasOf p = none) :
+    ∃ m, eval env p = .ok m ∧ st'.getD a [] = m.toList :=
+  evalS_content env addr p st a st' h hp
+
 /-- **Write-through probe.**  Changing an entry of the result's mask afterwards leaves every
 buffer that existed before the evaluation — in particular every operand's mask — as it was. -/
 theorem write_leaves_operands (env : Nat → Mask) (addr : Nat → Nat) (p : Prog) (st st' : Store) (a : Nat)
